@@ -11,10 +11,19 @@ from vf import pysym, rx
 KNOWN_CONSTANTS = []
 
 
+_CHAR_VALS = {}
+
+
 def _chars_of(s):
     if isinstance(s, SymStr):
         return s.chars
-    return [z3.IntVal(ord(c)) for c in s]
+    out = []
+    for c in s:
+        v = _CHAR_VALS.get(c)
+        if v is None:
+            v = _CHAR_VALS[c] = z3.IntVal(ord(c))
+        out.append(v)
+    return out
 
 
 class SymStr:
